@@ -102,13 +102,20 @@ def render(rng, toks, fancy):
 
 BAD = [2**31, -2**31 - 1, 2**32, 2**32 - 1, 2**32 + 1, 2**63 - 1, 2**63, 2**63 + 1, 2**64, 2**64 + 1, 10**40, -10**40, 0, -1, 1, 11, 3, 6, 4]
 
+def bad_number(rng):
+    """a number outside its field: the fixed boundary values, or one that is k*2^64 (or 2^63) plus/minus a small amount, with either sign —
+    the values an accumulator that wraps instead of saturating turns into small legal numbers"""
+    if rng.random() < 0.6: return rng.choice(BAD)
+    v = rng.choice([2**63, 2**64, 2**64, 2 * 2**64, 3 * 2**64, 4 * 2**64]) + rng.choice([-1, 1]) * rng.choice([0, 1, 2, 5, 7, 2**31 - 1, 2**31, rng.randint(0, 2**32)])
+    return v if rng.random() < 0.6 else -v
+
 def mutate(rng, toks):
     idx = [i for i, t in enumerate(toks) if t[0] == "n"]
     if not idx: return toks
     i = rng.choice(idx)
     k = rng.random()
     t = list(toks)
-    if k < 0.45: t[i] = ("n", rng.choice(BAD))
+    if k < 0.45: t[i] = ("n", bad_number(rng))
     elif k < 0.60: t[i] = ("n", t[i][1] + rng.choice([1, -1]))
     elif k < 0.75: t = t[:i] + [("e",)] if rng.random() < 0.5 else t[:i]
     elif k < 0.85: del t[i]
